@@ -17,8 +17,8 @@ from .cstep import unchanged, apply_op
 PROPERTY = "C08"
 META = {
     "explanation": "explicit reachability over the access-mode alphabet {allow_write, enter, exit, exit-by-exception} (bounded depth) x one real mutator or reader call; file contents/geometry symbolic, unchanged-bytes proved by z3 (table bytes, every payload byte through a Skolem index, length)",
-    "bounds": {"quick": {"mode_event_sequences": "all well-formed sequences of length <= 4", "file": "N=2, one live block (events), symbolic contents", "operations": "8 mutators, 22 readers"},
-               "thorough": {"mode_event_sequences": "all well-formed sequences of length <= 5", "file": "N=2 with 1 live and N=3 with 2 live blocks", "operations": "8 mutators, 22 readers"}},
+    "bounds": {"quick": {"mode_event_sequences": "all well-formed sequences of length <= 4", "file": "N=2, one live block (events), symbolic contents", "operations": "8 mutators, 23 readers (comparison also with an operand that cannot be opened; a mutation is attempted after every comparison)"},
+               "thorough": {"mode_event_sequences": "all well-formed sequences of length <= 5", "file": "N=2 with 1 live and N=3 with 2 live blocks", "operations": "8 mutators, 23 readers (comparison also with an operand that cannot be opened; a mutation is attempted after every comparison)"}},
     "outside_bounds": ["longer mode-event sequences", "re-entrant nesting of the same object's context", "concurrent use from several threads"],
     "assumptions": ["SymFS handle accounting (opened/closed)", "decoders replaced by recorders (what is decoded is C01's subject)"],
 }
